@@ -172,3 +172,117 @@ func typedNilSeen(c *Check, fis []*FuncInfo) {
 		}
 	}
 }
+
+// E11 result used on the failure path. `info, err := os.Stat(p); if err != nil { log(err) }; info.ModTime()`: when the
+// step failed its other result is the zero value – a nil pointer or interface – and the first method call or field
+// access on it panics. The rule: from a call that returns (v, err) with v of pointer or interface type, no use of v
+// through a method call or field selection is reachable on the path on which err is non-nil (v and err not reassigned).
+func failedResultSeen(c *Check, fis []*FuncInfo) {
+	c.Rule("E11", "the pointer / interface result of a step is not dereferenced (method call, field access) on the path on which the error that came with it is non-nil – there it is nil (a failure that is only logged and then falls through panics on the next line)", 0)
+	seen := map[*types.Func]bool{}
+	defer func() { c.HoldConst("E11", "steps-examined", token.NoPos, true, "") }()
+	for _, fi := range fis {
+		if fi == nil || seen[fi.Obj] || fi.Decl.Body == nil {
+			continue
+		}
+		seen[fi.Obj] = true
+		info := fi.Info()
+		bodies := []*ast.BlockStmt{fi.Decl.Body}
+		ast.Inspect(fi.Decl.Body, func(x ast.Node) bool {
+			if fl, ok := x.(*ast.FuncLit); ok {
+				bodies = append(bodies, fl.Body)
+			}
+			return true
+		})
+		ord := map[string]int{}
+		for bi, body := range bodies {
+			// pre-filter
+			cand := false
+			inspectNoLitTop(body, func(x ast.Node) bool {
+				if as, ok := x.(*ast.AssignStmt); ok && len(as.Lhs) >= 2 && len(as.Rhs) == 1 {
+					if _, isCall := ast.Unparen(as.Rhs[0]).(*ast.CallExpr); isCall {
+						cand = true
+					}
+				}
+				return true
+			})
+			if !cand {
+				continue
+			}
+			f := c.P.FlowOf(info, body, fi.Name())
+			for _, pt := range f.Points() {
+				as, ok := pt.Node().(*ast.AssignStmt)
+				if !ok || len(as.Lhs) < 2 || len(as.Rhs) != 1 {
+					continue
+				}
+				call, isCall := ast.Unparen(as.Rhs[0]).(*ast.CallExpr)
+				if !isCall {
+					continue
+				}
+				errV, _ := objOf(info, as.Lhs[len(as.Lhs)-1]).(*types.Var)
+				if errV == nil || !isErrorType(errV.Type()) {
+					continue
+				}
+				for _, l := range as.Lhs[:len(as.Lhs)-1] {
+					v, _ := objOf(info, l).(*types.Var)
+					if v == nil || v.IsField() {
+						continue
+					}
+					switch v.Type().Underlying().(type) {
+					case *types.Pointer, *types.Interface:
+					default:
+						continue
+					}
+					c.sites++
+					callee := methodName(call)
+					if callee == "" {
+						callee = exprStr(call.Fun)
+					}
+					ord[callee]++
+					key := fi.Pkg.Types.Name() + "." + refName(fi.Obj)
+					if bi > 0 {
+						key += "$lit" + itoa(bi)
+					}
+					key += ":" + callee + itoa(ord[callee]) + ":" + v.Name()
+					uses := func(q Pt) bool {
+						if q == pt || q.Node() == nil {
+							return false
+						}
+						hit := false
+						inspectNoLit(q.Node(), func(x ast.Node) bool {
+							if sel, ok := x.(*ast.SelectorExpr); ok && objOf(info, sel.X) == types.Object(v) {
+								// a method value / call or a field access through the nil value
+								if s := info.Selections[sel]; s != nil {
+									if s.Kind() == types.FieldVal {
+										hit = true
+									} else if _, isIface := v.Type().Underlying().(*types.Interface); isIface || s.Kind() == types.MethodVal {
+										// methods with pointer receivers may tolerate nil; interface methods never do
+										if isIface {
+											hit = true
+										} else if fn, ok := s.Obj().(*types.Func); ok && (fn.Pkg() == nil || !isServerPkg(fn.Pkg().Path())) {
+											hit = true
+										}
+									}
+								}
+							}
+							return true
+						})
+						return hit
+					}
+					redef := func(q Pt) bool {
+						// (the step itself, met again on the next way round a loop, assigns both anew)
+						return q.Node() != nil && (assignsObj(info, q.Node(), v) || assignsObj(info, q.Node(), errV))
+					}
+					path, found := f.ReachRefined(pt, errV, false, false, uses, redef)
+					if why, isEx := errLookedAtExceptions["E11 "+key]; isEx {
+						c.Except("E11 " + key + ": " + why)
+						continue
+					}
+					if found {
+						c.Hold("E11", key, as.Pos(), false, "when "+callee+" fails its result "+v.Name()+" is nil, and the function goes on to use it ("+f.Describe(path)+"): a nil dereference – e.g. a Stat that fails with anything but 'not found' is logged and the next line calls a method on the nil FileInfo; the panic ends the goroutine that keeps the table up to date")
+					}
+				}
+			}
+		}
+	}
+}
